@@ -1000,11 +1000,178 @@ theorem calcFree_required (s : TState) (required : DevRes) (hr : required ≠ []
     drGet_filter_key s.free (fun x => drHas required x) m]
   cases drHas required m <;> simp
 
+/-- what calcFreeWithPreemptible leaves on a minor whose preemptible amounts are `P` -/
+def remainingOf (s : TState) (m : Nat) (P : RL) : RL :=
+  rlSubNN (drGetD s.total m) (rlSubNN (drGetD s.used m) P)
+
+def mergeStep (s : TState) (acc : DevRes) (p : Nat × RL) : DevRes :=
+  if rlIsZero (remainingOf s p.1 p.2) then acc else drSet acc p.1 (remainingOf s p.1 p.2)
+
+theorem drGet_foldl_merge (s : TState) (pre : DevRes) (m : Nat) : ∀ (acc : DevRes), (pre.map (·.1)).Nodup →
+    drGet (pre.foldl (mergeStep s) acc) m =
+      match drGet pre m with
+      | some P => if rlIsZero (remainingOf s m P) then drGet acc m else some (remainingOf s m P)
+      | none => drGet acc m := by
+  induction pre with
+  | nil => intro acc _; simp [drGet]
+  | cons p rest ih =>
+    intro acc hn
+    obtain ⟨m', P'⟩ := p
+    simp only [List.map_cons, List.nodup_cons] at hn
+    simp only [List.foldl_cons]
+    rw [ih _ hn.2]
+    by_cases hm : m' = m
+    · subst hm
+      rw [drGet_none_of_not_mem rest m' hn.1]
+      simp only [drGet, if_true, mergeStep]
+      split
+      · rfl
+      · simp [drGet_drSet]
+    · have hacc : drGet (mergeStep s acc (m', P')) m = drGet acc m := by
+        simp only [mergeStep]
+        split
+        · rfl
+        · simp [drGet_drSet, hm]
+      simp only [drGet, hm, if_false, hacc]
+
+theorem calcFree_preempt_get (s : TState) (pre : DevRes) (hn : (pre.map (·.1)).Nodup) (m : Nat) :
+    drGet (calcFree s pre []) m =
+      match drGet pre m with
+      | some P => if rlIsZero (remainingOf s m P) then drGet s.free m else some (remainingOf s m P)
+      | none => drGet s.free m := by
+  have hmerged : (if pre.isEmpty then ([] : DevRes) else
+      pre.foldl (fun acc p =>
+        let used := rlSubNN (drGetD s.used p.1) p.2
+        let remaining := rlSubNN (drGetD s.total p.1) used
+        if rlIsZero remaining then acc else drSet acc p.1 remaining) []) = pre.foldl (mergeStep s) [] := by
+    cases pre with
+    | nil => rfl
+    | cons _ _ => rfl
+  simp only [calcFree, List.isEmpty_nil, if_true]
+  rw [hmerged]
+  have hg := drGet_foldl_merge s pre m [] hn
+  simp only [drGet] at hg
+  generalize hM : pre.foldl (mergeStep s) [] = merged at *
+  have hfree : drGet (if merged.isEmpty then s.free else merged ++ s.free.filter (fun p => !drHas merged p.1)) m =
+      match drGet merged m with
+      | some v => some v
+      | none => drGet s.free m := by
+    cases hme : merged.isEmpty
+    · simp only [Bool.false_eq_true, if_false]
+      rw [drGet_append, drGet_filter_key s.free (fun x => !drHas merged x) m]
+      cases hgm : drGet merged m with
+      | some v => rfl
+      | none => simp [drHas, hgm]
+    · have : merged = [] := List.isEmpty_iff.mp hme
+      subst this
+      simp [drGet]
+  rw [hfree, hg]
+  cases drGet pre m with
+  | none => rfl
+  | some P =>
+    simp only []
+    cases rlIsZero (remainingOf s m P) <;> simp
+
+/-- **calcFree_preempt**: with preemptible amounts `pre` (what the victims hold, per minor) and no reserved amounts,
+    the free amount offered on a preemptible minor is `max 0 (total − max 0 (used − P))`, on any other minor it is
+    deviceFree — value-wise, on a ledger with the invariants. -/
+theorem calcFree_preempt (s : TState) (hinv : Inv1 s) (pre : DevRes) (hn : (pre.map (·.1)).Nodup)
+    (hp : amountsOK pre = true) (m k : Nat) :
+    drVal (calcFree s pre []) m k =
+      match drGet pre m with
+      | some P => max 0 (drVal s.total m k - max 0 (drVal s.used m k - rlVal P k))
+      | none => drVal s.free m k := by
+  have hget := calcFree_preempt_get s pre hn m
+  cases hg : drGet pre m with
+  | none =>
+    rw [hg] at hget
+    simp only [drVal, drGetD, hget]
+  | some P =>
+    rw [hg] at hget
+    simp only [] at hget
+    have hP : 0 ≤ rlVal P k := alNonneg_of pre hp (m, P) (drGet_mem pre m P hg) k
+    have hrem : rlVal (remainingOf s m P) k = max 0 (drVal s.total m k - max 0 (drVal s.used m k - rlVal P k)) := by
+      simp only [remainingOf]
+      rw [rlVal_subNN _ _ _ (rlVal_subNN_nonneg _ _ k), rlVal_subNN _ _ _ hP]
+      rfl
+    by_cases hz : rlIsZero (remainingOf s m P) = true
+    · simp only [hz, if_true] at hget
+      have h0 := rlVal_of_isZero _ k hz
+      rw [hrem] at h0
+      have hf := hinv.free m k
+      have hu := hinv.upos m k
+      have ht := hinv.tpos m k
+      simp only [drVal, drGetD, hget] at *
+      omega
+    · simp only [hz, if_false] at hget
+      simp only [drVal, drGetD, hget, Option.getD_some]
+      simpa [drVal, drGetD] using hrem
+
 example :
     let s := addT (refreshT TState.empty [(0, [some 100]), (1, [some 100])]) 1 [(0, [some 70])]
     -- 70 of device 0 are preemptible, the reservation holds 50 of device 0: the view offers min(100, 50) there
     drVal (filterT s (some [0, 1]) [(0, [some 70])] [(0, [some 50])]).free 0 0 = 50 ∧
     drVal (filterT s (some [0, 1]) [] []).free 0 0 = 30 ∧ drVal (filterT s (some [1]) [] []).free 0 0 = 0 := by decide
+
+/-! ### the memory / memory-ratio pair (fillGPUTotalMem) — OPEN KNOWN FINDING C07:derived-memory-dimension-overcommit -/
+
+/-- one card {core 100, memory 1000, ratio 100}; pod 1 requests 199 units of memory (19.9 %: recorded as ratio 19),
+    pod 2 requests ratio 81 — it fits the 81 the ledger believes to be free, and 810 units of memory are committed:
+    1009 in use of 1000.  The fit check never looked at the derived dimension. -/
+theorem derived_memory_overcommit_counterexample :
+    let s0 := refreshT TState.empty [(0, [some 100, some 1000, some 100])]
+    ∃ s1 s2, reserveGPU b2rFloor s0 1 [none, some 199, none] = some s1 ∧
+      reserveGPU b2rFloor s1 2 [none, none, some 81] = some s2 ∧
+      drVal s2.used 0 1 = 1009 ∧ drVal s2.total 0 1 = 1000 ∧ drVal s2.used 0 2 = 100 := by
+  refine ⟨_, _, rfl, rfl, ?_⟩
+  decide
+
+/-! The positive side, as arithmetic on one card with total memory `T > 0` and total ratio 100.  `Um`, `Ur` = memory and
+ratio in use.  The ledger is CONSISTENT when `100 * Um = Ur * T`; a request is EXACT when its two memory dimensions
+(requested `b` or `r`, the other one derived) satisfy `100 * b = r * T` — true for every ratio request when `T` is a
+multiple of 100 and for a byte request iff it is a whole percent of the card.  Then the derived dimension fits
+whenever the requested one does, and consistency is preserved, so no over-commit can arise from the pair. -/
+
+theorem derived_ratio_fits (T Um Ur b r : Int) (hT : 0 < T) (hc : 100 * Um = Ur * T) (hx : 100 * b = r * T)
+    (hb : 0 ≤ b) (hfit : b ≤ max 0 (T - Um)) : r ≤ max 0 (100 - Ur) := by
+  by_cases hb0 : b = 0
+  · subst hb0
+    have : r * T = 0 := by omega
+    rcases Int.mul_eq_zero.mp this with h | h <;> omega
+  · have h1 : b ≤ T - Um := by omega
+    have h2 : r * T ≤ (100 - Ur) * T := by
+      rw [Int.sub_mul]; omega
+    have := Int.le_of_mul_le_mul_right h2 hT
+    omega
+
+theorem derived_bytes_fits (T Um Ur b r : Int) (hT : 0 < T) (hc : 100 * Um = Ur * T) (hx : 100 * b = r * T)
+    (hr : 0 ≤ r) (hfit : r ≤ max 0 (100 - Ur)) : b ≤ max 0 (T - Um) := by
+  by_cases hr0 : r = 0
+  · subst hr0; omega
+  · have h1 : r ≤ 100 - Ur := by omega
+    have h2 : r * T ≤ (100 - Ur) * T := Int.mul_le_mul_of_nonneg_right h1 (by omega)
+    rw [Int.sub_mul] at h2
+    omega
+
+theorem mem_consistent_commit (T Um Ur b r : Int) (hc : 100 * Um = Ur * T) (hx : 100 * b = r * T) :
+    100 * (Um + b) = (Ur + r) * T := by
+  rw [Int.add_mul]; omega
+
+theorem mem_consistent_release (T Um Ur b r : Int) (hc : 100 * Um = Ur * T) (hx : 100 * b = r * T) :
+    100 * (Um - b) = (Ur - r) * T := by
+  rw [Int.sub_mul]; omega
+
+/-- a ratio request is exact on a card whose memory is a multiple of 100 (memoryRatioToBytes loses nothing) -/
+theorem ratio_request_exact (T r : Int) (hT : T % 100 = 0) : 100 * (r * T / 100) = r * T := by
+  have : (r * T) % 100 = 0 := by
+    rw [Int.mul_emod, hT]; simp
+  omega
+
+/-- a whole-percent byte request is exact for the floor reading of memoryBytesToRatio -/
+theorem byte_request_exact (T b : Int) (hT : 0 < T) (hw : (b * 100) % T = 0) : 100 * b = b2rFloor b T * T := by
+  unfold b2rFloor
+  have h := Int.ediv_mul_cancel (Int.dvd_of_emod_eq_zero hw)
+  omega
 
 /-! ### the quirk behind `Covered` -/
 
